@@ -783,7 +783,10 @@ namespace
         {
             // a truncated size can also send the release to the wrong side of a segregator
             bool trunc = poly && t.size > 65535 && tl.bad->bad == 3 && tl.bad->size == (t.size & 0xFFFF);
-            v.set(trunc ? "polymorphic-deleter-size-truncated" : tl.bad->bad == 1 ? "moved-from-object-used" : "leaf-misuse",
+            v.set(trunc ? "polymorphic-deleter-size-truncated" :
+                  tl.bad->bad == 3 ? "released-to-wrong-leaf" :
+                  tl.bad->bad == 1 ? "moved-from-object-used" :
+                                     "leaf-misuse",
                   what + ": " + bad_text(*tl.bad));
         }
         if (threw || tl.n_alloc == 0)
